@@ -11,14 +11,16 @@
 EXTENDS CrossLoop
 
 CInit == /\ Callers \in SUBSET {"C1", "C2", "C3", "C4"}
-         /\ Mode \in {"idle", "lit", "closed"}
+         /\ Mode \in {"idle", "lit", "closed", "mixed"}
          /\ ReCheck = TRUE
+         /\ OwnStart = TRUE
          /\ D7Stutter = TRUE
 
 \* vacuity guard: without the locked re-check of _get_loop_lock the invariant is NOT inductive
 CInitNoReCheck == /\ Callers \in SUBSET {"C1", "C2", "C3", "C4"}
                   /\ Mode \in {"idle", "lit", "closed"}
                   /\ ReCheck = FALSE
+                  /\ OwnStart = TRUE
                   /\ D7Stutter = TRUE
 
 PCs == {"start", "ts_submit", "ts_wait", "check_closed", "lookup1", "acq_create", "lookup2", "create", "rel_create",
@@ -65,7 +67,7 @@ IndInv ==
     \* nobody gets an exception of the machinery unless the target is closed
     /\ error # {} => Mode = "closed"
     \* loop_in_thread's life cycle
-    /\ (Mode # "lit") => (lit = "off" /\ litpc = "idle")
+    /\ (Mode \notin {"lit", "mixed"}) => (lit = "off" /\ litpc = "idle")
     /\ lit \in {"off", "new"} => litpc = "idle"
     /\ lit = "stopped" => litpc = "done"
     /\ (Mode = "lit" /\ lit \in {"new", "spinning"}) => \A c \in Callers : pc[c] = "start"
